@@ -87,7 +87,7 @@ def handle (words : List String) : String :=
     match binOpOfName name, parseVal v1, parseVal v2, parseTyStr st1, parseTyStr st2 with
     | some op, some a, some b, some t1, some t2 =>
       if !acceptBin op t1 t2 then "model=perr " ++ toString Gen.EXC_PARSE_TYPE_MISMATCH_S
-      else "model=" ++ resStr (evalBin op a b)
+      else "model=" ++ resStr (evalBin op a b) ++ " note=" ++ tyStrSimple (typeBin op t1 t2)
     | _, _, _, _, _ => "bad-op"
   | ["prog", fuel, hex] =>
     -- whole program as an S-expression (hex); answers outcome, printed output and final variables
@@ -127,6 +127,20 @@ def handle (words : List String) : String :=
       "model=" ++ showO r1.outcome ++ ";" ++ showO r2.outcome ++ " out=" ++ hexOfBytes r2.st.output ++ " vars=" ++
         ";".intercalate (r2.st.vars.map fun (n, v) => n ++ ":" ++ valStr v)
     | _, _ => "bad-prog"
+  | "bity" :: name :: sts =>
+    -- compile-time view of a built-in call: acceptance of the argument types (generated signatures) and static result type
+    match sts.mapM parseTyStr with
+    | some tys =>
+      let acc := match acceptBuiltin name tys with
+        | some none => "ok"
+        | some (some code) => toString code
+        | none => "unmodelled"
+      let ty := match Gen.builtinTypes.find? (·.1 == name) with
+        | some (_, .const m) => tyStrSimple { major := m }
+        | some (_, .arg0) => tyStrSimple (tys.headD Ty.none)
+        | _ => "custom"
+      if acc == "unmodelled" then "model=unmodelled" else "model=accept=" ++ acc ++ " ty=" ++ ty
+    | none => "bad-op"
   | "bi" :: name :: vs =>
     -- built-in call with already evaluated arguments (static types = value types)
     match vs.mapM parseVal with
@@ -152,7 +166,7 @@ def handle (words : List String) : String :=
     match unOpOfName name, parseVal v1, parseTyStr st1 with
     | some op, some a, some t1 =>
       if !acceptUn op t1 then "model=perr " ++ toString Gen.EXC_PARSE_TYPE_MISMATCH_S
-      else "model=" ++ resStr (evalUn op a)
+      else "model=" ++ resStr (evalUn op a) ++ " note=" ++ tyStrSimple (typeUn op t1)
     | _, _, _ => "bad-op"
   | ["op", name, v1, v2] =>
     match binOpOfName name, parseVal v1, parseVal v2 with
